@@ -32,7 +32,7 @@ TECHNIQUE = "property-based testing (Hypothesis): differential oracle over gener
 
 
 def cases(tier):
-    return 2400 if tier == "quick" else 240000
+    return 2400 if tier == "quick" else 60000
 
 
 def schedule_strategy():
